@@ -11,9 +11,16 @@
                                            recipe (fixed mode) vs jaxSem, disagreeing inputs listed
    fix <q>                 -> int                candidate repair of lax.round
    bind <outs> <none|k>    -> unchanged | error | bound i:v,...   (outs: e.g. dn,DN ; D=drop N=needs)
+   grecipe <name> <tensor>*          -> ok <tensor>* | fail <tensor>*    every value of the regenerated
+                                        dataflow recipe (Gen.C01.grecipes) in SSA order (fail: up to the node that failed)
+   gjax <key> <int>* / <tensor>*     -> <tensor>* | none                 JAX-side tensor semantics (jaxSemT)
+   gop <ty> <argTy> <op…> / <tensor>* -> <tensor> | none                  one tensor operator (GOp.eval)
+   (tensor: <d1>x<d2>…:<v1>,<v2>…   scalar ":5"   empty vector "0:")
 -/
 import J2O.Model.C01
+import J2O.Model.C01Tensor
 import J2O.Gen.C01
+import J2O.Gen.C01Tensor
 open J2O.C01
 
 def parseDT : String → Option DT
@@ -82,8 +89,75 @@ def sweep (r : Recipe) (key : String) (t : DT) (arity : Nat) : String := Id.run 
         if r.eval .fixed [.i x, .i y] != jaxSem key t [.i x, .i y] then bad := bad.push s!"{x},{y}"
   return s!"{n} {bad.size} " ++ ";".intercalate bad.toList
 
+def parseTn (s : String) : Option Tn :=
+  match s.splitOn ":" with
+  | [sh, da] =>
+    let dims := if sh == "" then some [] else (sh.splitOn "x").mapM String.toNat?
+    let vals := if da == "" then some [] else (da.splitOn ",").mapM String.toInt?
+    match dims, vals with
+    | some d, some v => some ⟨d, v⟩
+    | _, _ => none
+  | _ => none
+
+def showTn (t : Tn) : String :=
+  "x".intercalate (t.shape.map toString) ++ ":" ++ ",".intercalate (t.data.map toString)
+
+def showTns (l : List Tn) : String := " ".intercalate (l.map showTn)
+
+def splitSlash (xs : List String) : List String × List String :=
+  (xs.takeWhile (· != "/"), (xs.dropWhile (· != "/")).drop 1)
+
+def parseBin : String → Option BinOp
+  | "add" => some .add | "sub" => some .sub | "mul" => some .mul | "div" => some .div
+  | "max" => some .max | "min" => some .min | "less" => some .less | "greater" => some .greater
+  | "equal" => some .equal | "and" => some .and | "or" => some .or | _ => none
+
+def parseRed : String → Option RedKind
+  | "max" => some .max | "min" => some .min | "sum" => some .sum | "prod" => some .prod | _ => none
+
+def parseGOp : List String → Option GOp
+  | ["identity"] => some .identity | ["neg"] => some .neg | ["not"] => some .not
+  | ["cast", b] => some (.cast (b == "1"))
+  | ["bin", f] => (parseBin f).map .bin
+  | ["where"] => some .where_ | ["shape"] => some .shape | ["squeeze"] => some .squeeze
+  | ["unsqueeze"] => some .unsqueeze | ["reshape"] => some .reshape | ["expand"] => some .expand
+  | ["concat", a] => a.toInt?.map .concat
+  | ["slice"] => some .slice | ["pad"] => some .pad | ["range"] => some .range
+  | ["gather", a] => a.toInt?.map .gather
+  | ["gatherElements", a] => a.toInt?.map .gatherElements
+  | ["reduce", k, keep] => (parseRed k).map fun k => .reduce k (keep == "1")
+  | ["topk", idx, ax, lg, so] => ax.toInt?.map fun a => .topk (idx == "1") a (lg == "1") (so == "1")
+  | ["maxPool", k, pl, pr] =>
+    match k.toInt?, pl.toInt?, pr.toInt? with
+    | some k, some pl, some pr => some (.maxPool [k] [1] [pl, pr])
+    | _, _, _ => none
+  | ["cumsum", e, r] => some (.cumsum (e == "1") (r == "1"))
+  | _ => none
+
 def step (line : String) : String :=
   match line.trimAscii.toString.splitOn " " with
+  | "grecipe" :: name :: ts =>
+    match J2O.Gen.C01.grecipes.find? (fun p => p.1 == name), ts.mapM parseTn with
+    | some (_, r), some ins =>
+      let (env, ok) := evalGTrace ins r.nodes
+      (if ok then "ok " else "fail ") ++ showTns env
+    | _, _ => "bad-op"
+  | "gjax" :: key :: rest =>
+    let (ps, ts) := splitSlash rest
+    match ps.mapM String.toInt?, ts.mapM parseTn with
+    | some ps, some ins =>
+      match jaxSemT key ps ins with
+      | some o => showTns o
+      | none => "none"
+    | _, _ => "bad-op"
+  | "gop" :: ty :: aty :: rest =>
+    let (os, ts) := splitSlash rest
+    match parseDT ty, parseDT aty, parseGOp os, ts.mapM parseTn with
+    | some ty, some aty, some op, some ins =>
+      match op.eval ty aty ins with
+      | some o => showTn o
+      | none => "none"
+    | _, _, _, _ => "bad-op"
   | "op" :: md :: ty :: aty :: op :: vals =>
     match parseMode md, parseDT ty, parseDT aty, parseOp op with
     | some md, some ty, some aty, some op => showVal (op.eval md ty aty (vals.map parseVal))
